@@ -122,6 +122,25 @@ def cases(draw, c):
     return case
 
 
+def _mixes_bool_and_number(value):
+    seen = set()
+
+    def walk(v):
+        if isinstance(v, bool):
+            seen.add("bool")
+        elif isinstance(v, (int, float)):
+            seen.add("num")
+        elif isinstance(v, list):
+            for x in v:
+                walk(x)
+        elif isinstance(v, dict):
+            for x in v.values():
+                walk(x)
+
+    walk(value)
+    return seen == {"bool", "num"}
+
+
 def self_check(schema, value):
     if not _HAVE_JS:
         return
@@ -131,6 +150,10 @@ def self_check(schema, value):
     try:
         theirs = jsonschema.Draft6Validator(schema).is_valid(value)
     except Exception:  # noqa: BLE001 - e.g. jsonschema's own crash on items:false + additionalItems
+        return "skipped"
+    if mine != theirs and "uniqueItems" in canon(schema) and _mixes_bool_and_number(value):
+        # jsonschema decides uniqueness by sorting and comparing neighbours; [1] and [True] sort as equal, so
+        # [[1], [true], [1]] passes as unique there. ref6 compares every pair.
         return "skipped"
     if mine != theirs:
         raise runner.HarnessError(
